@@ -254,6 +254,51 @@ def check_json(ctx, algs, kid, payload, general):
             ctx.violation("C01:json-roundtrip-refused", "the library refused its own JSON JWS", case)
 
 
+def check_key_sources(ctx, alg, signer, victim):
+    """Where the verification key comes from: a fixed key, a key resolver (callable) and what it returns, or -- only when the
+    caller passes no key -- the token's own "jwk" header.  The token is signed by [signer] and carries the signer's key."""
+    m = ctx.model
+    jws = JsonWebSignature()
+    registry = sorted(JsonWebSignature.ALGORITHMS_REGISTRY)
+    pub = (lambda k: k if R.keys()[k]["kind"] == "oct" else k + ".pub")
+    jwk = R.material(pub(signer), "jwk")
+    payload = b'{"sub":"forged"}'
+    try:
+        token = bytes(jws.serialize_compact({"alg": alg, "jwk": jwk}, payload, R.material(signer, "key")))
+    except Exception as e:  # noqa: BLE001
+        ctx.count("key-source:serialize:%s" % type(e).__name__)
+        return
+    flat = json.loads(json.dumps(jws.serialize_json({"protected": {"alg": alg, "jwk": jwk}}, payload, R.material(signer, "key"))))
+    sources = [("none", None, None), ("fixed-victim", R.material(pub(victim), "key"), pub(victim)), ("fixed-signer", R.material(pub(signer), "key"), pub(signer))]
+    for lab, res in (("resolver-none", None), ("resolver-victim", pub(victim)), ("resolver-signer", pub(signer))):
+        mat = R.material(res, "key") if res else None
+        sources.append((lab, (lambda h, p, mat=mat: mat), [res]))
+    for lab, key, mkey in sources:
+        case = {"alg": alg, "signer": signer, "victim": victim, "key_source": lab}
+        ctx.case(case, ("key-source", alg, lab), "key-source:%s" % lab)
+        real = real_deserialize_compact(jws, token, key)
+        mod = m.call("jws_deserialize_compact", {"registry": registry, "allow": None, "s": token, "key": mkey})
+        mod = [mod[0], [mod[1][0], tob(mod[1][1])]] if mod[0] == "ok" else [mod[0]]
+        ctx.compare("jws_deserialize_compact", dict(case, token=token), real, mod)
+        rj = real_deserialize_json(jws, flat, key)
+        sig = [{"protected": flat["protected"], "signature": flat["signature"], "header": flat.get("header")}]
+        mj = m.call("jws_deserialize_json", {"registry": registry, "allow": None, "payload": flat["payload"], "general": False, "signatures": sig, "key": mkey})
+        ctx.compare("jws_deserialize_json:outcome", dict(case, object=flat), rj[0], mj[0])
+        try:
+            JsonWebToken([alg]).decode(token, key)
+            rt = "ok"
+        except Exception as e:  # noqa: BLE001
+            rt = err_class(e)
+        ctx.count("key-source:%s:%s" % (lab, real[0]))
+        for how, outcome in (("compact", real[0]), ("json", rj[0]), ("jwt", rt)):
+            if outcome == "ok" and lab not in ("none", "fixed-signer", "resolver-signer"):
+                ctx.violation("C01:verified-under-the-tokens-own-key:%s:%s" % (how, lab),
+                              "a token signed by another key and carrying that key in its jwk header was returned as verified although the caller supplied "
+                              "a key source (%s) that does not yield the signer's key" % lab, case)
+            if outcome != "ok" and lab in ("fixed-signer", "resolver-signer"):
+                ctx.violation("C01:refused-under-the-signers-key:%s:%s" % (how, lab), "a token was refused under the key that signed it", case)
+
+
 def check_jwt(ctx, alg, kid):
     """jwt.encode / jwt.decode on top of the compact form (claims are JSON)."""
     jwt = JsonWebToken(list(JsonWebSignature.ALGORITHMS_REGISTRY))
@@ -292,6 +337,8 @@ HEADERS = [{}, {"kid": "k1"}, {"typ": "JWT", "x": "é", "n": 5}]
 
 def run(ctx):
     ctx.oracles = oracles()
+    for alg, signer, victim in (("HS256", "oct2", "oct1"), ("RS256", "rsa2", "rsa1"), ("PS384", "rsa2", "rsa1"), ("ES256", "p256b", "p256"), ("EdDSA", "ed25519b", "ed25519")):
+        check_key_sources(ctx, alg, signer, victim)
     rng = ctx.rng
     quick = ctx.tier == "quick"
     ctx.rule = ("15 registered algorithms x key forms (raw/PEM bytes, PEM text, JWK dict, Key object) x 5 payloads (empty, text, all 256 "
@@ -318,7 +365,9 @@ def run(ctx):
 
 def run_case(ctx, case):
     ctx.oracles = oracles()
-    if case.get("jwt"):
+    if "key_source" in case:
+        check_key_sources(ctx, case["alg"], case["signer"], case["victim"])
+    elif case.get("jwt"):
         check_jwt(ctx, case["alg"], case["key"])
     elif "algs" in case:
         check_json(ctx, case["algs"], case["key"], case["payload"], case["general"])
